@@ -1348,6 +1348,10 @@ func (pc *PartitionContext) UpdateAllocation(alloc *objects.Allocation) (request
 		if existing.IsPlaceholder() {
 			pc.incPhAllocationCount()
 		}
+		// the ask is allocated now: a reservation it made earlier must not stay behind
+		if reservedNode := pc.GetNode(app.NodeReservedForAsk(allocationKey)); reservedNode != nil {
+			pc.unReserve(app, reservedNode, existing)
+		}
 
 		log.Log(log.SchedPartition).Info("external allocation placed",
 			zap.String("partitionName", pc.Name),
